@@ -9,7 +9,7 @@ PROPS = ['Props/C30.v', 'Findings/C30.v']
 GEN = []
 TRUSTED = [
     'hand-written executable models Model/C30Scan.v (pony.utils.parse_expr: the three regular expressions as deterministic scanners) and '
-    'Model/C30Adapt.v (core.adapt_sql: scan, $$, five paramstyles, % doubling, the cache with its two different keys; ormtypes.parse_raw_sql), '
+    'Model/C30Adapt.v (core.adapt_sql: scan, $$, five paramstyles, % doubling, the process-wide cache; ormtypes.parse_raw_sql), '
     'tied by correspondence: a line-by-line Python mirror of the model is compared with the real functions (sources captured through an injected '
     '`compile`), and the Coq model with the mirror by vm_compute on every case',
     'the character classes \\w and \\s are parameters of the model (theorems hold for all classifications); the correspondence uses the classes CPython\'s re reports '
@@ -179,16 +179,14 @@ def m_adapt(style, sql):
     return ('ok', text, ('dict', [(i + 1, e) for i, e in enumerate(exprs)]))
 
 def m_run_history(hist):
-    """the cache as the unchanged code has it: looked up under (sql, style), stored under (rewritten sql, style)"""
+    """the cache as /repo has it (bfddd57): looked up and stored under (sql, style) as the caller wrote the statement"""
     cache, out = {}, []
     for sql, style in hist:
         hit = cache.get((sql, style))
         if hit is not None: out.append(hit); continue
         r = m_adapt(style, sql)
         if r[0] == 'ok' and r[2] is not None and not all_compile(r): r = ('err', 'syntax')     # compile() raised: nothing is stored
-        if r[0] == 'ok':
-            rw = sql.replace('%', '%%') if style in ('format', 'pyformat') else sql
-            cache[(rw, style)] = r
+        if r[0] == 'ok': cache[(sql, style)] = r
         out.append(r)
     return out
 
@@ -455,8 +453,10 @@ def correspondence(ctx):
         w, sp = nonascii_tables(''.join(s for s, _ in hist))
         h = clist(hist, lambda p: '(%s, %s)' % (cstr(p[0]), CSTYLE[p[1]]))
         fresh = [m_adapt(st, s) for s, st in hist]
-        add('history', 'list_eqb (res_eqb adapted_eqb) (run_history %s %s [] %s) %s' % (w, sp, h, clist(model, c_outcome)), hist, repr(impl), model != fresh)
-        if model != fresh and len(samples) < 5: samples.append({'history': hist, 'answers': repr(impl)})
+        hits = len(hist) - len(set(hist))
+        if model != fresh: disagree('cache is not transparent on this history (mirror of the cache model)', hist, repr(impl), repr(fresh)); continue
+        add('history', 'list_eqb (res_eqb adapted_eqb) (run_history %s %s [] %s) %s' % (w, sp, h, clist(model, c_outcome)), hist, repr(impl), hits > 0)
+        if hits and len(samples) < 5: samples.append({'history': hist, 'answers': repr(impl)})
 
     bad = run_bools(ctx, exprs)
     for i in bad[:20]:
@@ -486,7 +486,7 @@ def classify(style, segs, cold_ok):
         if fmt and any(sg[0] == 'e' and '%' in (sg[1] + (sg[2] or '')) for sg in segs): return 'percent-inside-expression-doubled-format-styles'
         kinds = sorted({k for sg in segs if sg[0] == 'e' for k in expr_kind(sg[1])})
         return 'unlisted:adapt:%s:%s' % (style, '+'.join(kinds) or 'no-expr')
-    return 'adapt-sql-cache-stored-under-rewritten-text' if fmt else 'unlisted:cache:%s' % style
+    return 'unlisted:cache:%s:answer-of-another-statement' % style
 
 def expr_kind(e):
     out = set()
@@ -684,8 +684,7 @@ def replay(ctx, data):
 LEVEL_TEXT = ('Machine-checked proof (Coq 8.16.1) over an executable model of adapt_sql / parse_expr / parse_raw_sql: for every paramstyle and every well-formed '
               'segment list the adapted text is the text pieces in order with one numbered placeholder per $expression and the arguments are the expressions in '
               'order; $$ becomes $; text is %-doubled exactly so that the driver\'s %-step restores it; every placeholder is bound to the value of its own '
-              'expression; the cache is transparent for every history on the exact complement of the recorded defect (entry stored under the %-doubled text), '
-              'which is refuted by a two-request witness, and for every history with the proposed one-token fix. Two further defects are refuted by witnesses '
+              'expression; the cache is transparent for every history of requests (unconditional, after the repair bfddd57 of the cache key). Two defects are refuted by witnesses '
               '(% inside an expression is doubled under format/pyformat; raw_sql() fragments are not %-doubled). The model is tied to /repo by correspondence '
               'on generated statements x 5 styles x adaptation orders and by an end-to-end search on SQLite through every public entry point.')
 LEVEL_NOTE = ('Trusted: Coq kernel + vm_compute; the hand-written scanner model and its Python mirror (compared with the real regex-based code on every run, not '
